@@ -19,11 +19,11 @@ def is_prime(m):
 
 
 def inv(x, m):
-    """inverse of x modulo the prime m (Fermat); x must not be 0 mod m"""
+    """inverse of x modulo the prime m (built-in modular inverse); x must not be 0 mod m"""
     x %= m
     if x == 0:
         raise ZeroDivisionError("0 has no inverse mod %d" % m)
-    return pow(x, m - 2, m)
+    return pow(x, -1, m)
 
 
 def on_curve(P, p, a, b):
